@@ -251,6 +251,14 @@ fn int_lit(l: &LitInt) -> String {
 }
 
 impl<'a> Fx<'a> {
+    /// the type a path segment names: `Self`, or a configured alias of a plain type name
+    fn resolve_owner(&self, n: &str) -> String {
+        if n == "Self" { return self.self_ty.clone(); }
+        match self.tr.cfg.aliases.get(n) {
+            Some(a) if a.chars().all(|c| c.is_alphanumeric() || c == '_') && !matches!(a.as_str(), "usize" | "u8" | "u16" | "u32" | "u64" | "u128" | "Val") => a.clone(),
+            _ => n.to_string(),
+        }
+    }
     fn fresh(&mut self, base: &str) -> String {
         self.fresh += 1;
         format!("{}_{}", base, self.fresh)
@@ -424,9 +432,9 @@ impl<'a> Fx<'a> {
                     Ok((format!("({})", atoms.join(", ")), Ty::Tuple(tys)))
                 }
             }
-            Expr::Struct(s) if s.path.segments.len() >= 2 && self.tr.variant_fields.contains_key(&({ let sg = path_str(&s.path); if sg[sg.len() - 2] == "Self" { self.self_ty.clone() } else { sg[sg.len() - 2].clone() } }, path_str(&s.path).last().unwrap().clone())) => {
+            Expr::Struct(s) if s.path.segments.len() >= 2 && self.tr.variant_fields.contains_key(&({ let sg = path_str(&s.path); self.resolve_owner(&sg[sg.len() - 2]) }, path_str(&s.path).last().unwrap().clone())) => {
                 let sg = path_str(&s.path);
-                let owner = if sg[sg.len() - 2] == "Self" { self.self_ty.clone() } else { sg[sg.len() - 2].clone() };
+                let owner = self.resolve_owner(&sg[sg.len() - 2]);
                 let var = sg.last().unwrap().clone();
                 let names = self.tr.variant_fields.get(&(owner.clone(), var.clone())).unwrap().clone();
                 let mut vals: HashMap<String, String> = HashMap::new();
@@ -580,7 +588,7 @@ impl<'a> Fx<'a> {
                 let name = path_str(&m.mac.path).join("::");
                 err(&format!("macro {}! in expression position", name), e.span())
             }
-            _ => err("expression", e.span()),
+            _ => { use quote::ToTokens; let t = e.to_token_stream().to_string(); err(&format!("expression `{}`", t.chars().take(80).collect::<String>()), e.span()) }
         }
     }
 
@@ -673,7 +681,7 @@ impl<'a> Fx<'a> {
             }
             return Ok((n.clone(), Ty::Unknown));
         }
-        let owner = if segs[segs.len() - 2] == "Self" { self.self_ty.clone() } else { segs[segs.len() - 2].clone() };
+        let owner = self.resolve_owner(&segs[segs.len() - 2]);
         let item = segs.last().unwrap();
         if let Some(prefix) = self.tr.cfg.extern_enums.get(&owner) {
             let c = format!("{}{}", prefix, item);
@@ -945,7 +953,7 @@ impl<'a> Fx<'a> {
                     let sg = path_str(&p.path);
                     if sg.len() >= 2 && sg[sg.len() - 1] == "from_repr" {
                         // strum::FromRepr on an external C-like enum modelled by its discriminant
-                        let owner = if sg[sg.len() - 2] == "Self" { self.self_ty.clone() } else { sg[sg.len() - 2].clone() };
+                        let owner = self.resolve_owner(&sg[sg.len() - 2]);
                         let (a, _) = self.expr(c.args.first().ok_or("T8: from_repr()")?, pre)?;
                         let (d, _) = self.expr(args[0], pre)?;
                         return Ok((format!("({}_from_repr_or W {} {})", owner, paren(&a), paren(&d)), Ty::Extern(owner)));
@@ -1184,7 +1192,7 @@ impl<'a> Fx<'a> {
                     let _ = write!(call, " {}", paren(&v));
                 }
                 call.push(')');
-                let rty = if let Some((_, t)) = f.split_once(':') { let ty: Type = syn::parse_str(t).map_err(|e| e.to_string())?; self.tr.ty(&ty)? }
+                let rty = if let Some((_, t)) = f.split_once(':') { let ty: Type = syn::parse_str(t).map_err(|e| e.to_string())?; ret_ty(self.tr, &ty)? }
                           else if f.ends_with("_opt") { Ty::Opt(Box::new(Ty::Int("Val".into()))) } else { Ty::Int("Val".into()) };
                 let call = match f.split_once(':') { Some((fname, _)) => call.replacen(&f, fname, 1), None => call };
                 return Ok((call, rty));
@@ -1201,7 +1209,9 @@ impl<'a> Fx<'a> {
                 // through the function's own type
                 let declared = fs.last().and_then(|(o, f)| self.tr.field_tyname.get(&(o.clone(), f.clone())).cloned());
                 if let Some(d) = declared.filter(|d| self.tr.sigs.contains_key(&(d.clone(), name.clone()))) { d }
-                else if self.tr.sigs.contains_key(&(self.self_ty.clone(), name.clone())) { self.self_ty.clone() } else {
+                else if self.tr.sigs.contains_key(&(self.self_ty.clone(), name.clone())) { self.self_ty.clone() }
+                else if let Some(nt) = { let c: Vec<&String> = self.tr.cfg.newtypes.iter().filter(|n| self.tr.sigs.contains_key(&((*n).clone(), name.clone()))).collect(); if c.len() == 1 { Some(c[0].clone()) } else { None } } { nt }
+                else {
                 return err(&format!("method `{}` on a receiver of unknown type", name), m.span()); }
             }
         };
@@ -1294,7 +1304,7 @@ impl<'a> Fx<'a> {
             for a in &args { let (v, _) = self.expr(a, pre)?; let _ = write!(call, " {}", paren(&v)); }
             call.push(')');
             let ty: Type = syn::parse_str(&t).map_err(|e| e.to_string())?;
-            return Ok((call, self.tr.ty(&ty)?));
+            return Ok((call, ret_ty(self.tr, &ty)?));
         }
         if joined.ends_with("Vec::with_capacity_in") || joined.ends_with("Vec::new_in") || joined.ends_with("Vec::new") || joined.ends_with("Vec::with_capacity") {
             return Ok(("[]".into(), Ty::List(Box::new(Ty::Unknown))));
@@ -1340,7 +1350,7 @@ impl<'a> Fx<'a> {
             return Ok((a, Ty::F64));
         }
         if segs.len() >= 2 {
-            let owner = if segs[segs.len() - 2] == "Self" { self.self_ty.clone() } else { segs[segs.len() - 2].clone() };
+            let owner = self.resolve_owner(&segs[segs.len() - 2]);
             let item = segs.last().unwrap().clone();
             // tuple-struct constructor `Self(x)` handled below (len 1); enum variant constructor:
             if let Some(vs) = self.tr.enums.get(&owner) {
@@ -1475,7 +1485,7 @@ impl<'a> Fx<'a> {
                         out.push_str(&c);
                         return Ok(out);
                     }
-                    Some(init) if matches!(&*init.expr, Expr::Match(m) if m.arms.iter().any(|a| matches!(&*a.body, Expr::Block(b) if b.block.stmts.len() > 1))) => {
+                    Some(init) if matches!(&*init.expr, Expr::Match(m) if m.arms.iter().any(|a| diverges(&a.body) || matches!(&*a.body, Expr::Block(b) if b.block.stmts.len() > 1))) => {
                         // `let PAT = match e { A => v, B => { stmts; w } }; rest`  ==  `match e { A => { let PAT = v; }, B => { stmts; let PAT = w; } } rest`
                         let m = match &*init.expr { Expr::Match(m) => m, _ => unreachable!() };
                         let mut m2 = m.clone();
@@ -1487,6 +1497,10 @@ impl<'a> Fx<'a> {
                                         Some(Stmt::Expr(e, None)) => (b.block.stmts[..n - 1].to_vec(), e.clone()),
                                         _ => return err("block arm of a `let = match` without a final value", arm.span()),
                                     }
+                                }
+                                e if diverges(e) => {
+                                    arm.body = Box::new(Expr::Block(ExprBlock { attrs: vec![], label: None, block: Block { brace_token: Default::default(), stmts: vec![Stmt::Expr(e.clone(), Some(Default::default()))] } }));
+                                    continue;
                                 }
                                 e => (vec![], e.clone()),
                             };
@@ -1954,7 +1968,7 @@ impl<'a> Fx<'a> {
             Pat::Struct(ps) if ps.path.segments.len() >= 2 => {
                 // `Enum::Variant { a, b, .. }`
                 let segs = path_str(&ps.path);
-                let owner = if segs[segs.len() - 2] == "Self" { self.self_ty.clone() } else { segs[segs.len() - 2].clone() };
+                let owner = self.resolve_owner(&segs[segs.len() - 2]);
                 let var = segs.last().unwrap().clone();
                 let names = self.tr.variant_fields.get(&(owner.clone(), var.clone())).cloned().ok_or(format!("T8: unknown struct variant {}::{} in a pattern", owner, var))?;
                 let tys = self.tr.enums.get(&owner).and_then(|vs| vs.iter().find(|(v, _)| *v == var)).map(|(_, t)| t.clone()).unwrap_or_default();
@@ -1972,9 +1986,9 @@ impl<'a> Fx<'a> {
             Pat::TupleStruct(ts) => {
                 let segs = path_str(&ts.path);
                 let owner = if segs.len() >= 2 {
-                    if segs[segs.len() - 2] == "Self" { self.self_ty.clone() } else { segs[segs.len() - 2].clone() }
+                    self.resolve_owner(&segs[segs.len() - 2])
                 } else {
-                    return err("unqualified tuple-struct pattern", p.span());
+                    return self.gpat(p, sty);
                 };
                 let var = segs.last().unwrap().clone();
                 let payload = self.tr.enums.get(&owner).and_then(|vs| vs.iter().find(|(v, _)| *v == var)).map(|(_, t)| t.clone())
@@ -2034,6 +2048,10 @@ impl<'a> Fx<'a> {
             }
             Pat::TupleStruct(ts) if ts.path.segments.len() == 1 && ts.elems.len() == 1 && matches!(ts.path.segments[0].ident.to_string().as_str(), "Ok" | "Some" | "Err") => {
                 let head = ts.path.segments[0].ident.to_string();
+                if head == "Err" && !matches!(sty, Ty::Res(_)) && matches!(&ts.elems[0], Pat::Wild(_)) {
+                    // `Result<T, Box<dyn Error>>` is `option T`: the error value is not observable
+                    return Ok("None".into());
+                }
                 let inner_ty = match (&sty, head.as_str()) { (Ty::Opt(t), _) | (Ty::Res(t), "Ok") => (**t).clone(), _ => Ty::Unknown };
                 let ctor = match (head.as_str(), &sty) { ("Some", _) => "Some", ("Ok", Ty::Res(_)) => "ROk", ("Err", Ty::Res(_)) => "RErr", ("Ok", _) => "Some", _ => return err("Err(_) pattern on a value that is not a Result<_, ErrorCode>", p.span()) };
                 let inner = self.gpat(&ts.elems[0], &inner_ty)?;
@@ -2042,7 +2060,7 @@ impl<'a> Fx<'a> {
             Pat::TupleStruct(ts) => {
                 let segs = path_str(&ts.path);
                 if segs.len() < 2 { return err("unqualified tuple-struct pattern", p.span()); }
-                let owner = if segs[segs.len() - 2] == "Self" { self.self_ty.clone() } else { segs[segs.len() - 2].clone() };
+                let owner = self.resolve_owner(&segs[segs.len() - 2]);
                 let var = segs.last().unwrap().clone();
                 let payload = self.tr.enums.get(&owner).and_then(|vs| vs.iter().find(|(v, _)| *v == var)).map(|(_, t)| t.clone())
                     .ok_or(format!("T8: unknown variant {}::{} in a pattern", owner, var))?;
@@ -2054,7 +2072,7 @@ impl<'a> Fx<'a> {
                 let segs = path_str(&ps.path);
                 if segs.len() >= 2 {
                     // `Enum::Variant { .. }` on a tuple variant, or a struct variant
-                    let owner = if segs[segs.len() - 2] == "Self" { self.self_ty.clone() } else { segs[segs.len() - 2].clone() };
+                    let owner = self.resolve_owner(&segs[segs.len() - 2]);
                     let var = segs.last().unwrap().clone();
                     if let Some(names) = self.tr.variant_fields.get(&(owner.clone(), var.clone())).cloned() {
                         let tys = self.tr.enums.get(&owner).and_then(|vs| vs.iter().find(|(v, _)| *v == var)).map(|(_, t)| t.clone()).unwrap_or_default();
@@ -2538,17 +2556,28 @@ fn run(src: &str, types: &[String], imports: &[String], cfg: Cfg, emit_consts: b
             let name = f.sig.ident.to_string();
             if tr.cfg.skip_fns.contains(&name) { continue; }
             if let Some(only) = &tr.cfg.only_fns { if !only.contains(&name) { continue; } }
-            // body must be exactly `T::with_mut(|c| ..)` / `T::with(|c| ..)`
-            let tail = match f.block.stmts.as_slice() { [Stmt::Expr(e, None)] => e.clone(), _ => continue };
-            let (is_mut, closure) = match &tail {
-                Expr::Call(c) => match (&*c.func, c.args.first()) {
+            // body is exactly `T::with_mut(|c| ..)` / `T::with(|c| ..)`; a listed (`--only`) exported function that does not use the
+            // context at all is translated as a static function of T
+            let with_call = match f.block.stmts.as_slice() {
+                [Stmt::Expr(Expr::Call(c), None)] => match (&*c.func, c.args.first()) {
                     (Expr::Path(p), Some(Expr::Closure(cl))) => {
                         let sg = path_str(&p.path);
-                        if sg.len() == 2 && sg[0] == wt && (sg[1] == "with_mut" || sg[1] == "with") { (sg[1] == "with_mut", cl.clone()) } else { continue }
+                        if sg.len() == 2 && sg[0] == wt && (sg[1] == "with_mut" || sg[1] == "with") { Some((sg[1] == "with_mut", cl.clone())) } else { None }
                     }
-                    _ => continue,
+                    _ => None,
                 },
-                _ => continue,
+                _ => None,
+            };
+            let (is_mut, closure) = match with_call {
+                Some(x) => x,
+                None => {
+                    if tr.cfg.only_fns.as_ref().map_or(false, |o| o.contains(&name)) {
+                        let sig = sig_of(&tr, &wt, &f.sig)?;
+                        tr.sigs.insert((wt.clone(), name.clone()), sig.clone());
+                        bodies.push((sig, (*f.block).clone(), f.span().start().line));
+                    }
+                    continue;
+                }
             };
             let cparam = match closure.inputs.first() { Some(Pat::Ident(i)) => i.ident.to_string(), _ => continue };
             use quote::ToTokens;
